@@ -12,6 +12,13 @@ import r_lock
 import r_partials
 import r_cmp
 import r_table
+import r_arith
+import r_math
+import r_panic
+import r_grammar
+import r_parsers
+import r_lookup
+import grammar
 
 TRUST_COMMON = [
     "rustc nightly: MIR (mir-opt-level=0), type and trait resolution as dumped by driver/lrfacts",
@@ -160,6 +167,79 @@ def c14(rep, tier):
     r_cmp.run_cmptotal(p, rep)
     r_cmp.run_eqonly(p, rep)
     r_cmp.run_orderins(p, rep, [r_cmp.CORE_FNS["value_eq"], r_cmp.CORE_FNS["value_cmp"]])
+    rep.analysed["config:all"] = {"bodies": len(p.fns)}
+
+
+def c15(rep, tier):
+    p = P("all")
+    r_arith.run(p, rep, scope=lambda fn: fn.id.startswith("liquid_lib::stdlib::filters::math::"))
+    r_math.run(p, rep)
+    rep.analysed["config:all"] = {"bodies": len(p.fns)}
+
+
+def c01(rep, tier):
+    p = P("all")
+    g = grammar.load(facts.REPO)
+    r_grammar.run_totality(rep, g)
+    r_panic.run(p, rep, g, "parse")
+    pr, rr = r_panic.reach_sets(p)
+    r_arith.run(p, rep, reach=pr)
+    r_parsers.run_arity(p, rep)
+    r_parsers.run_closed(p, rep)
+    rep.analysed["config:all"] = {"bodies": len(p.fns), "parse_reachable": len(pr)}
+
+
+def c02(rep, tier):
+    p = P("all")
+    g = grammar.load(facts.REPO)
+    r_panic.run(p, rep, g, "render")
+    pr, rr = r_panic.reach_sets(p)
+    r_arith.run(p, rep, reach=rr)
+    r_utf8sink.run(p, rep)
+    r_utf8sink.run_unsafe(p, rep)
+    r_lock.run_reentrant_refcell(p, rep)
+    r_cmp.run_cmptotal(p, rep)
+    rep.analysed["config:all"] = {"bodies": len(p.fns), "render_reachable": len(rr)}
+    if tier == "thorough":
+        for cfg in ("lib-stdlib", "lib-jekyll", "lib-shopify", "lib-extra", "nodefault"):
+            q = P(cfg)
+            sub = type(rep)(rep.prop, rep.tier)
+            q_pr, q_rr = r_panic.reach_sets(q)
+            r_arith.run(q, sub, reach=q_rr)
+            for v in sub.violations:
+                rep.viol(v["rule"], "[%s] %s" % (cfg, v["key"].split("|", 1)[1]), v["where"], v["what"], v["detail"])
+            rep.analysed["config:" + cfg] = {"bodies": len(q.fns), "obligations": len(sub.obligations)}
+
+
+def c03(rep, tier):
+    p = P("all")
+    g = grammar.load(facts.REPO)
+    r_grammar.run_whitespace(rep, g)
+    r_grammar.run_delimiters(rep, g)
+    r_grammar.run_totality(rep, g)
+    RT = " as liquid_core::runtime::renderable::Renderable>::render_to"
+    r_verbatim.single_field_print(p, rep, ["<liquid_core::parser::text::Text" + RT, "<liquid_lib::stdlib::blocks::raw_block::RawT" + RT])
+    r_verbatim.no_calls(p, rep, "<liquid_lib::stdlib::blocks::comment_block::Comment" + RT)
+    r_parsers.run_comment_raw(p, rep)
+    rep.analysed["config:all"] = {"bodies": len(p.fns)}
+
+
+def c07(rep, tier):
+    p = P("all")
+    g = grammar.load(facts.REPO)
+    r_lookup.run_loud(p, rep)
+    r_lookup.run_overlay(p, rep)
+    r_lookup.run_literal_verbatim(p, rep)
+    # literal obligations of parse_literal (shared with C01): grammar facts for every literal conversion
+    sub = type(rep)(rep.prop, rep.tier)
+    r_panic.run(p, sub, g, "parse")
+    for o in sub.obligations:
+        if "parse_literal" in o["site"] or "parse_variable_pair" in o["site"] or "parse_value" in o["site"]:
+            if o["ok"]:
+                rep.ok(o["rule"], o["site"], o["where"], o["how"])
+    for v in sub.violations:
+        if "parse_literal" in v["key"] or "parse_variable_pair" in v["key"] or "parse_value" in v["key"]:
+            rep.viol(v["rule"], v["key"].split("|", 1)[1], v["where"], v["what"], v["detail"])
     rep.analysed["config:all"] = {"bodies": len(p.fns)}
 
 
@@ -335,5 +415,80 @@ PROPS = {
         ),
         "trusted": TRUST_COMMON,
         "note": "the known finding F-SORT (non-total comparator) is reported as KNOWN-FINDING; any other comparator defect still alarms",
+    },
+    "C15": {
+        "run": c15,
+        "level": "other",
+        "design_ref": "DESIGN.md §3 R-ARITH, R-DIV, R-MATH; §4 C15",
+        "technique": "interprocedural taint of template-controlled integers into MIR overflow/division asserts and abs/pow/rem calls; dominating zero-guard rule; per-filter census of the integer path",
+        "explanation": (
+            "Decided from MIR for all operands: in filters/math.rs no unchecked + - * / % abs/pow is applied to a template-controlled integer (every "
+            "Overflow/DivisionByZero/RemainderByZero assert and wrapping_rem call is either absent, untainted or dominated by a zero test, including the "
+            "closure idiom where the enclosing function tests the same accessor's payload against 0 before building the closure); every filter converts "
+            "both operands with to_integer before any float path, performs exactly one exact integer operation of the expected kind (checked_add/sub/mul/div, "
+            "wrapping_rem, max, min, checked_abs) and never routes the integer path through f64; divided_by and modulo use the truncating pair. "
+            "NOT decided: IEEE results, rounding direction and ties of ceil/floor/round, string-to-number coercion results."
+        ),
+        "trusted": TRUST_COMMON + ["ledger/arith.tsv (3 reviewed lines, printed in the evidence)"],
+        "note": "exactness is argued from which operations are used, not by evaluating them",
+    },
+    "C01": {
+        "run": c01,
+        "level": "other",
+        "design_ref": "DESIGN.md §3 R-GRAMMAR, R-PANIC, R-ARITY, R-CLOSED, R-ARITH; §4 C01",
+        "technique": "panic-site census over the call graph reachable from the parser (MIR) with every site discharged by a pest-grammar fact (pest_meta AST), a dominating guard, another rule or a reviewed ledger line; grammar totality of the lax rule",
+        "explanation": (
+            "Decided for all input strings: the lax top-level grammar rule has the shape SOI ~ (A | !E ~ ANY)* ~ EOI with E an alternative of A, so it matches every "
+            "input; every expect/unwrap/panic!/unreachable!/index/BoundsCheck/overflow site reachable from parse() and from every ParseTag/ParseBlock/ParseFilter "
+            "is enumerated from MIR and discharged: child-presence expects by always-present-children facts of the grammar, unreachable! arms by coverage of the "
+            "grammar's alternatives, literal conversions by the literal rules' languages, defensive rule panics by their exact reviewed caller sets, string slices "
+            "by boundary provenance, arithmetic by taint; every tag/block parser rejects leftover arguments on every Ok path and calls assert_empty only after its "
+            "block reader finished. NOT decided: termination/recursion depth, message content, panics inside pest. Known finding: F-LIT64."
+        ),
+        "trusted": TRUST_COMMON + ["pest_meta grammar front end", "ledger/panic_sites.tsv L-REASON/D-LOCAL lines (listed in evidence)"],
+        "note": "a census with obligations: new or unjustified panic-capable sites alarm; reasons marked L-REASON/D-LOCAL are human-reviewed, not machine-checked",
+    },
+    "C02": {
+        "run": c02,
+        "level": "other",
+        "design_ref": "DESIGN.md §3 R-PANIC, R-ARITH, R-DIV, R-STRSLICE, R-UTF8SINK, R-REENTRANT, R-CMPTOTAL; §4 C02",
+        "technique": "panic-site census over the render-reachable call graph; taint of template-controlled integers into overflow/division sites; character-boundary provenance of every str slice; RefCell guard live-range vs re-borrow reachability",
+        "explanation": (
+            "Decided for all templates and data: every panic-capable site reachable from any Renderable/Filter/Runtime/ValueView method is enumerated and discharged "
+            "(as for C01); no unchecked arithmetic or division on a template-controlled integer without a dominating guard; every byte-range str index uses bounds "
+            "that come from char_indices/len/find/len_utf8 (never subtraction, never an inclusive end); only write_fmt reaches the sink; no user unsafe; no RefCell "
+            "guard is live across a call that can re-borrow; sort comparators are total (known finding F-SORT). NOT decided: termination (range materialisation, padding "
+            "loops), values above the quantifier's bounds, panics inside dependencies."
+        ),
+        "trusted": TRUST_COMMON + ["ledger/panic_sites.tsv, ledger/arith.tsv reviewed lines"],
+        "note": "see C01 note; width/size bounds of the quantifier are taken as given (OUT-OF-DOMAIN lines)",
+    },
+    "C03": {
+        "run": c03,
+        "level": "other",
+        "design_ref": "DESIGN.md §3 R-GRAMMAR(b,c), R-VERBATIM, R-BLOCKBODY; §4 C03",
+        "technique": "structural matching of the pest grammar AST (whitespace class, trim delimiters, Raw rule) + MIR shape of the text/raw/comment renderables and of the comment/raw block parsers",
+        "explanation": (
+            "Decided: WHITESPACE accepts exactly space, tab, LF, CR(LF); each of the four delimiters tries its trimming form first with WHITESPACE* on the outer side "
+            "only; Raw checks every character against the start delimiters; Tag/Expression have no other whitespace consumption; Text and RawT print exactly one field "
+            "of self with one sink write and call nothing else; Comment::render_to makes no call; the comment parser interprets nested tags only; the raw parser "
+            "stores escape_liquid(false) unmodified. NOT decided: byte-for-byte equality for all texts, escape_liquid's span arithmetic."
+        ),
+        "trusted": TRUST_COMMON + ["pest_meta grammar front end; pest matching semantics"],
+        "note": "grammar shape rules alarm on any reformulation of the delimiter rules (DESIGN §6 residual risk)",
+    },
+    "C07": {
+        "run": c07,
+        "level": "other",
+        "design_ref": "DESIGN.md §3 R-LOUD, R-OVERLAY, R-VERBATIM, R-PANIC(G-*); §4 C07",
+        "technique": "must-propagate tracking of every failing lookup on the output path; CFG edge rule for the first/last/size overlay; grammar-language facts for literal conversions",
+        "explanation": (
+            "Decided: an output tag resolves through Expression::evaluate -> Variable::evaluate -> Runtime::get -> find, each error propagated with `?` and never the "
+            "optional lookups; an integer index goes only to ArrayView::get, names to the overlay, object `size` is a fallback of the real key; each lookup step consumes "
+            "one path element; string literals are literal[1..len-1] verbatim; float/bool literal conversions cannot fail (grammar language); every match over literal "
+            "kinds covers the grammar's alternatives. NOT decided: negative-index arithmetic, printed form of each literal. Known finding: F-LIT64."
+        ),
+        "trusted": TRUST_COMMON + ["pest_meta grammar front end"],
+        "note": "numeric parts (index conversion) are out of reach of static analysis",
     },
 }
